@@ -5,7 +5,7 @@ PROP = 'C20'
 LEVEL = 'exploration'
 TIERS = {
     'quick': {'runs': 1600, 'wall_per_run': 180},
-    'thorough': {'runs': 60000, 'wall_per_run': 180},
+    'thorough': {'runs': 24000, 'wall_per_run': 180, 'selftest': 200},
 }
 REQUIRED_PROBES = ['consecutive_equal_size_batches', 'consecutive_equal_size_and_width', 'equal_size_different_width',
                    'batch_size_change', 'lines_finish_at_different_steps', 'line_hit_length_cap',
